@@ -5,7 +5,8 @@
 (*   bucket / length / keys / bar / stackbar / heat / spark   one primitive call    *)
 (*   render   one screen: configuration, the aggregated state the renderer was      *)
 (*            handed (keys and numbers in display order), the states the same       *)
-(*            renderer instance drew before (layout state), the lines               *)
+(*            renderer instance drew before (layout state), the screen before the   *)
+(*            render, the footers written after it, the lines                       *)
 (* The trace spec is total: every record is consumed; Why(r) names the first       *)
 (* contract a record breaks ("ok" otherwise); the rejected ones are collected in   *)
 (* `bad` and written by Final.                                                     *)
@@ -59,7 +60,8 @@ SparkWhy0(r) ==
 \* nested IFs so that a later check may rely on the earlier ones.
 
 K(r, key) == Vis(key, r.color)
-F(r, v) == Fmt(r.fmt, v)
+\* the displayed number: the chosen formatter applied to the value AND the bounds the renderer has at this moment
+FC(r, v, mn, mx) == FmtC(r.fmt, r.tpl, v, mn, mx)
 Lin(r) == r.sc = "linear"
 \* pairs <<value, measure>> must be weakly monotone: a larger value never draws less
 Monotone(pairs) == \A i \in 1..Len(pairs), j \in 1..Len(pairs) : pairs[i][1] <= pairs[j][1] => pairs[i][2] <= pairs[j][2]
@@ -84,13 +86,14 @@ PctOK(t, val, total) ==     \* |t/10 - 100*val/total| <= 1/20  (nearest tenth, e
 HistoLine(r, ln, key, val, mx, total) ==
   LET v  == Vis(ln, r.color)
       k  == K(r, key)
+      num == FC(r, val, 0, mx)
       i1 == SkipSp(v, Len(k) + 1)
-      i2 == TokEnd(v, i1)
+      i2 == i1 + Len(num)
       j  == SkipSp(v, i2)
       wantPct == r.pct /\ total > 0
       wantBar == r.bars /\ mx > 0
   IN IF ~HasPrefix(v, k) \/ i1 < Len(k) + 2 THEN [why |-> "histo:key", bar |-> <<>>]
-     ELSE IF SubSeq(v, i1, i2 - 1) # F(r, val) THEN [why |-> "histo:number", bar |-> <<>>]
+     ELSE IF i2 - 1 > Len(v) \/ SubSeq(v, i1, i2 - 1) # num \/ (i2 <= Len(v) /\ v[i2] # 32) THEN [why |-> "histo:number", bar |-> <<>>]
      ELSE LET e  == IF wantPct /\ j <= Len(v) /\ v[j] = 91 THEN IndexByteFrom(v, 93, j) ELSE 0
               j2 == IF wantPct THEN SkipSp(v, e + 1) ELSE j
               bar == SubSeq(v, j2, Len(v))
@@ -125,7 +128,7 @@ LegendWhy(r) ==
 \* grouped: one line per (row, sub-key): [key] bar " " number
 GroupedLine(r, ln, first, key, val, mx) ==
   LET v   == Vis(ln, r.color)
-      num == <<32>> \o F(r, val)
+      num == <<32>> \o FC(r, val, 0, mx)
       rest == SubSeq(v, 1, Len(v) - Len(num))
       b0  == BackTok(rest, Len(rest))
       bar == SubSeq(rest, b0 + 1, Len(rest))
@@ -155,7 +158,7 @@ GroupedWhy(r) ==
              ELSE "ok"
 \* stacked: one line per row: key, the segments, "  ", the row total
 StackedLine(r, ln, key, vals, mx) ==
-  LET tail == StackRaw(vals, mx, 50, r.color, r.uni) \o <<32, 32>> \o F(r, SeqSum(vals))
+  LET tail == StackRaw(vals, mx, 50, r.color, r.uni) \o <<32, 32>> \o FC(r, SeqSum(vals), 0, mx)
       head == Vis(SubSeq(ln, 1, Len(ln) - Len(tail)), r.color)
       k    == K(r, key)
   IN IF ~HasSuffix(ln, tail) THEN "stack:cells"
@@ -184,6 +187,8 @@ sLast  == <<76, 97, 115, 116>>
 DataCells(r, obs) ==
   LET C == Shown(Len(obs.cols), r.cols)
       R == Shown(Len(obs.rows), r.rows)
+      mm == TblMinMax(obs)                  \* the bounds a chosen formatter is given: least and largest cell of the table
+      F(rr, v) == FC(rr, v, mm[1], mm[2])
       hdr == <<<<>>>> \o [j \in 1..C |-> K(r, obs.cols[j])] \o <<IF r.rowtot THEN sTotal ELSE <<>>>>
       row(i) == <<K(r, obs.rows[i][1])>> \o [j \in 1..C |-> F(r, obs.rows[i][2][j])]
                 \o <<IF r.rowtot THEN F(r, SeqSum(obs.rows[i][2])) ELSE <<>>>>
@@ -195,6 +200,8 @@ DataCells(r, obs) ==
 SparkCols(r, obs) == LET C == Shown(Len(obs.cols), r.cols) IN SubSeq([j \in 1..Len(obs.cols) |-> j], Len(obs.cols) - C + 1, Len(obs.cols))
 SparkCells(r, obs, lineOf) ==
   LET dc == SparkCols(r, obs)
+      mm == TblMinMax(obs)
+      F(rr, v) == FC(rr, v, mm[1], mm[2])
       C  == Len(dc)
       R  == Shown(Len(obs.rows), r.rows)
       first == obs.cols[dc[1]]
@@ -289,7 +296,7 @@ HeatLegendWhy(r, mm) ==
   IN IF Len(es) < 1 \/ Len(es) > 6 \/ \E i \in 1..Len(es) : Len(es[i]) < 3 \/ es[i][2] # 32 THEN "heat:legend"
      ELSE IF ~Lin(r) THEN (IF \A i \in 1..Len(es) : glyphOK(es[i], 0) THEN "ok" ELSE "heat:legend")
      ELSE IF Len(es) # Len(ks) THEN "heat:legend"
-     ELSE IF \E i \in 1..Len(ks) : SubSeq(es[i], 3, Len(es[i])) # F(r, ks[i]) \/ ~glyphOK(es[i], ks[i]) THEN "heat:legend"
+     ELSE IF \E i \in 1..Len(ks) : SubSeq(es[i], 3, Len(es[i])) # FC(r, ks[i], mm[1], mm[2]) \/ ~glyphOK(es[i], ks[i]) THEN "heat:legend"
      ELSE "ok"
 HeatHeaderWhy(r) ==
   LET obs == r.obs
@@ -324,7 +331,33 @@ HeatWhy(r) ==
                                                    IN <<obs.rows[i][2][j], idx[i][j]>>]) THEN "heat:monotone"
              ELSE "ok"
 
-RenderWhy(r) ==
+\* ---- the whole screen: body and footers -------------------------------------------------------------------
+\* number of lines the renderer's own drawing occupies (the `n` of the checks above)
+BodyLen(r) ==
+  LET obs == r.obs IN
+  CASE r.rdr = "histo"  -> Shown(Len(obs.items), r.rows)
+    [] r.rdr = "bars"   -> IF Len(obs.rows) = 0 THEN 0 ELSE BarsPrefix(obs) + Len(obs.rows) * Len(obs.subkeys)
+    [] r.rdr = "stack"  -> IF Len(obs.rows) = 0 THEN 0 ELSE BarsPrefix(obs) + Len(obs.rows)
+    [] r.rdr = "table"  -> Len(DataCells(r, obs))
+    [] r.rdr = "reduce" -> Len(ReduceCells(r, obs))
+    [] r.rdr = "spark"  -> LET R == Shown(Len(obs.rows), r.rows) IN
+                           (IF Len(SparkCols(r, obs)) = 0 /\ R = 0 THEN 0 ELSE R + 1) + (IF Len(obs.rows) > R THEN 1 ELSE 0)
+    [] r.rdr = "heat"   -> LET R == Shown(Len(obs.rows), r.rows) IN 2 + R + (IF Len(obs.rows) > R THEN 1 ELSE 0)
+    [] OTHER -> 0
+\* footers (summary and status lines of the commands) go below the drawing: the histogram keeps them below its
+\* configured number of lines, every other renderer directly below what it drew
+FooterBase(r) == IF r.rdr = "histo" THEN r.rows ELSE BodyLen(r)
+\* below the drawing the screen is what was there before the render (r.before) with this render's footers written
+\* over it, VirtualTerm-wise: lines in between exist and are empty, nothing else changes, nothing fails
+FooterWhy(r) ==
+  LET B == BodyLen(r)
+      base == FooterBase(r)
+      exp == VWrites(r.before, [i \in 1..Len(r.foot) |-> <<base + r.foot[i][1], r.foot[i][2]>>])
+  IN IF Len(r.lines) # Max2(B, Len(exp)) THEN r.rdr \o ":footer-lines"
+     ELSE IF \E j \in (B + 1)..Len(r.lines) : r.lines[j] # VGet(exp, j - 1) THEN r.rdr \o ":footer"
+     ELSE "ok"
+
+BodyWhy(r) ==
   CASE r.rdr = "histo"  -> HistoWhy(r)
     [] r.rdr = "bars"   -> GroupedWhy(r)
     [] r.rdr = "stack"  -> StackedWhy(r)
@@ -333,6 +366,9 @@ RenderWhy(r) ==
     [] r.rdr = "spark"  -> SparkWhy(r)
     [] r.rdr = "heat"   -> HeatWhy(r)
     [] OTHER -> "unknown"
+RenderWhy(r) ==
+  LET w == BodyWhy([r EXCEPT !.lines = SubSeq(r.lines, 1, Min2(BodyLen(r), Len(r.lines)))])
+  IN IF w # "ok" THEN w ELSE FooterWhy(r)
 
 Why(r) ==
   IF r.panic THEN "panic"                                   \* whatever the state and the scale: the call returns
